@@ -33,11 +33,11 @@ property_meta(
                 "that output paths can never alias the input. Run histories on real files (first, repeat, overwrite, interrupted + retried, NP1 / already split): bounded stand-in.")
 
 
-def mk_conv(it, version="NP2.4", compressed_input=False, nshank=(0, 1)):
+def mk_conv(it, version="NP2.4", compressed_input=False, nshank=(0, 1), stem="x.imec0.ap"):
     fs_ = fsmodel.GhostFS()
     it.session.ghost_fs = fs_
     raw = ("sess", "raw_ephys_data", "probe00")
-    ap = fsmodel.GhostPath(fs_, raw, "x.imec0.ap" + (".cbin" if compressed_input else ".bin"))
+    ap = fsmodel.GhostPath(fs_, raw, stem + (".cbin" if compressed_input else ".bin"))
     fs_.exists[ap.key] = True
     fs_.size[ap.key] = SV(z3.Int("apsize"))
     fs_.content[ap.key] = z3.Const("orig_bytes", C02.Bytes)
@@ -411,8 +411,12 @@ def h_epilogue(H):
         nproc, nrec = z3.Ints("nsamples_processed ns_recording")
         it.ctx.assume(z3.And(nproc >= 1, nproc <= nrec))
         conv.attrs["nsamples"] = SV(nproc)
-        conv.attrs["sr"] = SObj(spikeglx.Reader, _raw=None, file_bin=ap, ns=SV(nrec))
-        H.input(nsamples_processed=nproc, ns_recording=nrec)
+        # the original as the reader sees it: ns_recording samples; its size on disk is whatever the (possibly compressed) file takes
+        disk = z3.Int("bytes_of_the_original_on_disk")
+        it.ctx.assume(disk >= 1)
+        conv.attrs["sr"] = SObj(spikeglx.Reader, _raw=None, file_bin=ap, ns=SV(nrec), nbytes=SV(disk), dtype=np.dtype("int16"), meta=conv.attrs["sr"].attrs["meta"],
+                                is_mtscomp=SV(z3.Bool("original_is_compressed")))
+        H.input(nsamples_processed=nproc, ns_recording=nrec, bytes_of_the_original_on_disk=disk)
         run_function(it, neuropixel.NP2Converter.delete_NP24, [conv])
         unl = [op for op in fs_.log if op[0] == "unlink"]
         it.ctx.oblige("delete_NP24.guard", z3.BoolVal(bool(unl)) == z3.And(cc, term(conv.delete_original), nproc == nrec), "post",
@@ -531,11 +535,12 @@ def h_np21(H):
 @harness(PROPERTY, "prepare_files_NP21", functions=["neuropixel:NP2Converter._prepare_files_NP21"],
          clause="single-shank probes: a repeated run without overwrite changes nothing on disk; a forced (or first) run starts the LF output empty; the output never aliases the input")
 def h_prepare21(H):
-    for overwrite in (False, True):
-        S2 = H.session(f"prepare21.ow{overwrite}")
+    # file names: the SpikeGLX convention (<run>.imec0.ap.bin) and a recording renamed by the user (band tag not between dots) - the reader opens either
+    for overwrite, stem in ((False, "x.imec0.ap"), (True, "x.imec0.ap"), (False, "x_g0_t0_ap"), (True, "x_g0_t0_ap")):
+        S2 = H.session(f"prepare21.ow{overwrite}" + ("" if stem == "x.imec0.ap" else ".renamed_file"))
 
-        def body2(it, overwrite=overwrite):
-            fs_, conv, ap, napch = mk_conv(it, version="NP2.1")
+        def body2(it, overwrite=overwrite, stem=stem):
+            fs_, conv, ap, napch = mk_conv(it, version="NP2.1", stem=stem)
             lf = ap.parent.joinpath(ap.name.replace("ap", "lf")).with_suffix(".bin")
             e1, e2 = z3.Bools("lf_bin_exists lf_cbin_exists")
             fs_.exists[lf.key] = SV(e1)
@@ -549,7 +554,11 @@ def h_prepare21(H):
             created = [op for op in fs_.log if op[0] in ("open_w", "open_a", "mkdir")]
             ae = conv.already_exists
             ae_t = term(ae) if not isinstance(ae, bool) else z3.BoolVal(ae)
-            tag = f"ow{overwrite}"
+            tag = f"ow{overwrite}" + ("" if stem == "x.imec0.ap" else ".renamed_file")
+            if stem != "x.imec0.ap":
+                it.ctx.oblige(f"np21.outputs_never_alias_input.{tag}", z3.BoolVal(all(op[1] != ap.key for op in created) and isinstance(info, dict) and all(v.get("lf_file") != ap for v in info.values())), "post",
+                              "the original is never the LF output, whatever the recording is called: it is neither truncated nor taken for earlier output")
+                return
             if not overwrite:
                 it.ctx.oblige("np21.rerun.flag", ae_t == z3.Or(e1, e2), "post")
                 it.ctx.oblige("np21.rerun.noop", z3.Implies(ae_t, z3.BoolVal(not created)), "post", "a repeated run without overwrite changes nothing on disk")
@@ -756,6 +765,25 @@ def b_native(B):
             B.case(("partial_split_keeps_the_original", comp), r == 1 and alive, detail={"returned": r, "original_intact": alive}, inputs={"kind": "partial_split_delete", "compress": comp})
         finally:
             shutil.rmtree(d, ignore_errors=True)
+    # the same with a compressed original (its size on disk says nothing about the number of samples it holds)
+    d, ap, orig = _mk("NP2.4")
+    try:
+        s0 = spikeglx.Reader(ap)
+        cb = s0.compress_file(keep_original=False)
+        s0.close()
+        cb_bytes = open(cb, "rb").read()
+        conv = neuropixel.NP2Converter(cb, post_check=True, compress=False, delete_original=True)
+        conv.init_params(nwindow=1200, nsamples=2950)
+        r = conv.process()
+        try:
+            conv.sr.close()
+        except Exception:
+            pass
+        alive = os.path.exists(cb) and open(cb, "rb").read() == cb_bytes
+        B.case("partial_split_keeps_the_compressed_original", r == 1 and alive, detail={"returned": r, "original_intact": alive, "samples_split": 2950, "samples_recorded": 3000,
+               "bytes_on_disk": len(cb_bytes), "bytes_split": 2950 * 385 * 2}, inputs={"kind": "partial_split_delete_cbin"})
+    finally:
+        shutil.rmtree(d, ignore_errors=True)
     # the usual idiom on one object: a run that finds earlier output (returns 0), then the same object forced
     for kind in ("NP2.4", "NP2.1"):
         d, ap, orig = _mk(kind)
